@@ -62,14 +62,10 @@ theorem deltaUs_mk (us : Int) : deltaUs? (mkDelta us : D) = some us := by
 theorem ga_days (x : Int) : getattr (mkDelta x : D) "days" = .ok (.int (x / 86400000000)) := rfl
 theorem ga_seconds (x : Int) : getattr (mkDelta x : D) "seconds" = .ok (.int (x % 86400000000 / 1000000)) := rfl
 theorem ga_micro (x : Int) : getattr (mkDelta x : D) "microseconds" = .ok (.int (x % 1000000)) := rfl
-theorem ebind_ok {ε α β : Type} (a : α) (f : α → Except ε β) : Except.bind (Except.ok a) f = f a := rfl
-
-theorem fd60 (x k : Int) (hk : 0 < k) : floordiv (.int x : D) (.int k) = .ok (.int (x / k)) := by
-  have h0 : ¬ k = 0 := by omega
-  simp [floordiv, intOf?, Int.fdiv_eq_ediv_of_nonneg x (Int.le_of_lt hk), pure, Except.pure, h0]
-theorem md60 (x k : Int) (hk : 0 < k) : Utv.Obj.mod (.int x : D) (.int k) = .ok (.int (x % k)) := by
-  have h0 : ¬ k = 0 := by omega
-  simp [Utv.Obj.mod, intOf?, Int.fmod_eq_emod_of_nonneg x (Int.le_of_lt hk), pure, Except.pure, h0]
+theorem fd60 (x : Int) : floordiv (.int x : D) (.int 60) = .ok (.int (x / 60)) := by
+  simp [floordiv, intOf?, Int.fdiv_eq_ediv_of_nonneg, pure, Except.pure]
+theorem md60 (x : Int) : Utv.Obj.mod (.int x : D) (.int 60) = .ok (.int (x % 60)) := by
+  simp [Utv.Obj.mod, intOf?, Int.fmod_eq_emod_of_nonneg, pure, Except.pure]
 theorem intRepr_of {i : Int} {n : Nat} (h : i = n) : intRepr i = natStr n := by
   subst h; simp [intRepr, natStr, natDigits]
 theorem padInt_of {i : Int} {n : Nat} (w : Nat) (h : i = n) : padInt w i = pad w n := by
@@ -124,18 +120,17 @@ theorem C14_gen_duration_iso_string (W : Utv.Obj.World Unit) (us : Int) :
         have e : us * -1 = ((us.natAbs : Nat) : Int) := by omega
         simp only [mul, deltaUs_mk, ← e]
         rfl
-      simp only [h0, h1, hlt, hneg, hm, bind, ebind_ok, pure, Except.pure, decide_true, if_true, ga_days, ga_seconds,
-        ga_micro, fd60 _ 60 (by decide), md60 _ 60 (by decide), truthy_int]
-      rw [body us.natAbs "-"]
+      simp only [h0, h1, hlt, hneg, hm, bind, Except.bind, pure, Except.pure, decide_true, if_true, ga_days, ga_seconds,
+        ga_micro, fd60, md60, truthy_int]
+      refine (body us.natAbs "-").trans ?_
       refine congrArg _ (congrArg _ (congrArg _ ?_))
       simp [durationIso, hneg]
     · have e : us = ((us.natAbs : Nat) : Int) := by omega
       have hn : ¬ ((us.natAbs : Nat) : Int) < 0 := by omega
-      simp only [h0, h1, hlt, hneg, bind, ebind_ok, pure, Except.pure, decide_false, Bool.false_eq_true, if_false]
+      simp only [h0, h1, hlt, hneg, bind, Except.bind, pure, Except.pure, decide_false, Bool.false_eq_true, if_false]
       rw [e]
-      simp only [bind, ebind_ok, pure, Except.pure, ga_days, ga_seconds, ga_micro, fd60 _ 60 (by decide),
-        md60 _ 60 (by decide), truthy_int]
-      rw [body us.natAbs ""]
+      simp only [bind, Except.bind, pure, Except.pure, ga_days, ga_seconds, ga_micro, fd60, md60, truthy_int]
+      refine (body us.natAbs "").trans ?_
       refine congrArg _ (congrArg _ (congrArg _ ?_))
       simp [durationIso, hn]
 
